@@ -428,10 +428,15 @@ impl LifeCmp<'_> {
                     let want = to_line2(ids, self.spec);
                     match parse_verification(text, self.spec) {
                         Ok(got) if got == want => None,
-                        Ok(got) => Some((
-                            verdict_tag(v),
-                            format!("verification lines {want:?}, parsed {got:?}"),
-                        )),
+                        Ok(got) => {
+                            // the right number of lines, but (some) naming another pattern / method than the
+                            // violated one: that is also a message naming the wrong pattern (C19)
+                            let mut tags = verdict_tag(v);
+                            if got.len() == want.len() {
+                                tags.push("C19");
+                            }
+                            Some((tags, format!("verification lines {want:?}, parsed {got:?}")))
+                        }
                         Err(e) => Some((verdict_tag(v), format!("verification lines {want:?}; {e}"))),
                     }
                 }
